@@ -72,8 +72,10 @@ func VerifC13Keys() {
 	if len(seqs) == 1 {
 		got := vaxis.VerifDecodeKey(seqs[0])
 		zzverif.Assert(got.Matches(key.Keycode, key.Modifiers), "decoded-key-matches-original-chord")
-		if key.Keycode == vaxis.KeyUp {
-			// the child's cursor-key mode selects SS3 vs CSI for unmodified cursor keys
+		switch key.Keycode {
+		case vaxis.KeyUp, vaxis.KeyDown, vaxis.KeyRight, vaxis.KeyLeft, vaxis.KeyHome, vaxis.KeyEnd:
+			// the child's cursor-key mode (DECCKM) selects SS3 vs CSI for the unmodified
+			// cursor keys: the four arrows, Home and End (xterm ctlseqs, "PC-Style Function Keys")
 			_, isSS3 := seqs[0].(ansi.SS3)
 			if key.Modifiers == 0 {
 				zzverif.Assert(isSS3 == decckm, "decckm-selects-ss3")
